@@ -74,6 +74,10 @@ let call_oracles (bump : str -> unit) (pre : vt) (o : op) (post : vt) (ls : nat 
   (match o with
    | Resize (_, _) ->
        chk "C10" "resize" (holds_C10 pre post);
+       (* "rows below the cursor may be dropped to keep it on screen": the conclusion cr' < nr /\ cc' <= nc of the pinned
+          theorem C10_resize_total, on every resize (both screens, every limit) *)
+       chk "C10" "cursor_on_screen"
+         (Nat.ltb post.vterm.cur_row post.vterm.rows && Nat.leb post.vterm.cur_col post.vterm.cols);
        if Sys.getenv_opt "DRIVER_C10_DEBUG" <> None && not (holds_C10 pre post) then begin
          let show (v : vt) =
            let t = v.vterm in
